@@ -1,0 +1,83 @@
+// Copyright 2024 RisingLight Project Authors. Licensed under Apache-2.0.
+
+//! Verification hooks.
+//!
+//! This module only exists when the crate is built with `--cfg risinglight_verif`. It lets an
+//! external simulator observe and steer the engine at named points:
+//!
+//! * [`gate`]: a named yield point. Without a registered [`Controller`] it returns immediately.
+//! * [`operator_item`]: a fault point in the per-operator output loop.
+//! * [`probe`]: a "this branch was reached" counter.
+//!
+//! Nothing in here changes behaviour unless a controller is installed with [`set_controller`].
+
+use std::future::Future;
+use std::pin::Pin;
+use std::sync::{Arc, RwLock};
+
+/// The future a task awaits while it is parked at a gate.
+pub type GateFuture = Pin<Box<dyn Future<Output = ()> + Send>>;
+
+/// What to do with the next item of an operator.
+#[derive(Debug, Clone, Copy, PartialEq, Eq)]
+pub enum ItemFault {
+    /// Pass the item through.
+    None,
+    /// Replace the item by an error.
+    Error,
+    /// Panic inside the operator task.
+    Panic,
+}
+
+/// The simulator side of the hooks.
+pub trait Controller: Send + Sync + 'static {
+    /// A task reached the yield point `site`. Return a future to park it, `None` to continue.
+    fn gate(&self, site: &'static str) -> Option<GateFuture>;
+    /// Operator `name` is about to emit its `idx`-th item.
+    fn operator_item(&self, name: &str, idx: usize) -> ItemFault;
+    /// A branch of interest was reached.
+    fn probe(&self, name: &'static str);
+    /// The current task spawned the task `child`.
+    fn task_spawned(&self, child: tokio::task::Id, name: &str);
+}
+
+static CONTROLLER: RwLock<Option<Arc<dyn Controller>>> = RwLock::new(None);
+
+/// Install (or remove) the controller.
+pub fn set_controller(controller: Option<Arc<dyn Controller>>) {
+    *CONTROLLER.write().unwrap() = controller;
+}
+
+fn controller() -> Option<Arc<dyn Controller>> {
+    CONTROLLER.read().unwrap().clone()
+}
+
+/// A named yield point.
+pub async fn gate(site: &'static str) {
+    let fut = controller().and_then(|c| c.gate(site));
+    if let Some(fut) = fut {
+        fut.await;
+    }
+}
+
+/// Fault point of the per-operator output loop.
+pub fn operator_item(name: &str, idx: usize) -> ItemFault {
+    match controller() {
+        Some(c) => c.operator_item(name, idx),
+        None => ItemFault::None,
+    }
+}
+
+/// Record that a branch of interest was reached.
+pub fn probe(name: &'static str) {
+    if let Some(c) = controller() {
+        c.probe(name);
+    }
+}
+
+/// Record that the current task spawned `child`.
+pub fn task_spawned(child: tokio::task::Id, name: &str) {
+    if let Some(c) = controller() {
+        c.task_spawned(child, name);
+    }
+}
